@@ -273,6 +273,11 @@ func (arch *Arch) Assembler(inp []byte) (Program, error) {
 		}
 	}
 
+	// The last line counts also when the text does not end with a newline
+	if n := len(inp); n > 0 && inp[n-1] != 10 {
+		inp = append(inp[:n:n], 10)
+	}
+
 	iLine := 0
 	j := 0
 	impLine := 1
